@@ -191,6 +191,20 @@ CLAIMED["C19"] = dict(
          "after a prelude using every encoding), not by the model.",
     technique="Lean 4 theorems over a hand-written World model + sampled correspondence (sfmodel world vs sfh under ASan) + solo-vs-merged predicate on implementation transcripts for every writable format",
     design_ref="DESIGN.md §7 C19")
+CLAIMED["C16"] = dict(
+    text="Proof (Lean 4) over Sf.Ledger, the resource ledger of a handle written where the C allocates and frees: one cell per owner pointer freed by psf_close (17), the SF_PRIVATE block, "
+         "the blocks released by close hooks (AIFF markstr, GSM state, G72x state, ALAC packet table and spool FILE), the file / resource-fork / spool descriptors, the spool file on disk, and "
+         "the per-chunk payload copies; cells are null / live / dangling, so overwrite-without-free, free-without-NULL-then-free and lost pointers are all expressible. Proved for every history "
+         "(any list of opens -- any route, mode, container, codec, any sequence of header-parse events, failing after any number of allocation steps -- string / broadcast / cart / cue / instrument / "
+         "channel-map / chunk / iterator / PEAK / dither calls valid or refused, writes, close): after close or a failed open nothing is held and nothing was lost (close_releases_all), no cell is "
+         "released twice (no_double_free), a replacing call keeps exactly one block per owner (replace_frees_old), sf_close returns 0 when the descriptor closes (close_returns_zero_when_io_ok). "
+         "Tied to the code per operation: owner-pointer mask read from the private struct, live heap blocks counted with the ASan runtime's malloc/free hooks, descriptor table, against `sfmodel ledger`, "
+         "for every writable (major, subtype, endian) x route x history; and by the property predicate itself (heap balance 0, LeakSanitizer clean, no new descriptor, empty private TMPDIR, close = 0) on "
+         "those and on failing opens, damaged SD2 resource forks, and the library's own files truncated at every header offset, with mutated length fields and duplicated chunks. Partial: header parsers are "
+         "relational in the model (read-mode parse events come from the observed mask); allocation failure is not injected; one handle per model world.",
+    technique="Lean 4 theorems over a resource-ledger model + per-operation differential check (private-struct mask, ASan allocation hooks, /proc/self/fd, TMPDIR) and balance predicate on implementation runs",
+    design_ref="DESIGN.md §7 C16")
+
 
 def main():
     checks = []
